@@ -158,6 +158,48 @@ def persist_refinement(I):
             ("refinement.persist_msg.abstract_post_is_alpha_of_post", same_abstract(jr, env.post(), key, j.t))]
 
 
+def recover_refinement(I):
+    """What C06's boundary contract of recover_messages assumes about the recovered rows (C06_resend.recover_row_facts /
+    recover_complete_fact, over the abstract journal: rows[k] = "an OUTBOUND row numbered k exists", seq(j) = number of
+    row j) follows from the clauses C13 proves on the SQL body (C13_journal.recover_row_clauses), instantiated at the
+    index pairs (j, j+1), (j-1, j) and at the probe number."""
+    import C13_journal as c13
+    import C06_resend as c06
+    c = I.ctx
+    key, a, b = c.inp_int("skey"), c.inp_int("start"), c.inp_int("end")
+    n, j, k0 = c.inp_int("nrows"), c.inp_int("j"), c.inp_int("k0")
+    c.assume(n >= 0)
+    pre = FreeView("pre")
+    rk = [z3.Function(f"rowkey{i}", Z, Z) for i in range(3)]
+    idx3 = z3.Function("row_idx3", Z, Z, Z, Z)
+    el = z3.Function("row_elem", Z, S)
+
+    def rowkey(jt):
+        return tuple(f(jt) for f in rk)
+
+    def elem(jx):
+        return SStr(el(_t(jx)), is_bytes=True)
+    probes = [(k0, key, SInt(z3.IntVal(OUT)) if isinstance(OUT, int) else OUT)]
+    d = probes[0][2]
+    for (j1, j2) in ((j, j + 1), (j - 1, j)):
+        for name, cl in c13.recover_row_clauses(pre, key, d, a, b, n, rowkey, idx3, elem, j1, j2, probes):
+            c.assume(cl)
+    kk = z3.Int("k!alpha")
+    rows = z3.Lambda([kk], pre.hm(kk, _t(key), _t(d)))
+
+    def seq(jt):
+        return rk[0](jt)
+
+    def idx(k):
+        return idx3(k, _t(key), _t(d))
+    goals = [(f"refinement.recover_messages.row_fact_{i}", SBool(f))
+             for i, f in enumerate(c06.recover_row_facts(rows, seq, n.t, a.t, b.t, j.t))]
+    goals.append(("refinement.recover_messages.complete_at_probe",
+                  SBool(c06.recover_complete_fact(rows, seq, idx, n.t, a.t, b.t, k0.t))))
+    c.notes.append(("outcome", "lemma"))
+    return goals
+
+
 def set_refinement(give_out, give_in):
     def h(I):
         import C13_journal as c13
